@@ -342,5 +342,5 @@ def quartic_equal_linear_factors(case, outs, verdict):
 
 
 KNOWN_CLASSES = {'cubic_small_leading': cubic_small_leading, 'quartic_overflow_leading': quartic_overflow_leading,
-                 'quartic_equal_linear_factors': quartic_equal_linear_factors,
+
                  'cubic_one_root_cancellation': cubic_one_root_cancellation}
